@@ -82,7 +82,7 @@ PROPS = {
              nontrivial=lambda line: len(line.split("|")[2].split()) >= 10),
     "C15": P(comp="dyn", gen=lambda t, s: gens.gen_dyn(t, s + 6), judges=["C15"], kinds=("DYN",),
              nontrivial=lambda line: len(line.split("|")[2].split()) >= 10),
-    "C08": P(comp="cmp", gen=lambda t, s: gens.gen_cmp(t, s), judges=["C08"], kinds=("CMP",),
+    "C08": P(comp="cmp", gen=lambda t, s: gens.gen_cmp(t, s), judges=["C08"], kinds=("CMP",), certq="C08certq",
              nontrivial=lambda line: len(line.split("|")[1].split()) >= 2),
     "C09": P(comp="var", gen=lambda t, s: gens.gen_var(t, s, "BK"), judges=["C09"], kinds=("BKT",),
              nontrivial=lambda line: len(line.split("|")[1].split()) >= 2),
@@ -220,6 +220,7 @@ def check(pid, tier, seed, args, t0):
         e2["TSAN_OPTIONS"] = "halt_on_error=1"; env["env"] = e2
 
     # 5-6 correspond + judge
+    os.environ["PGM_CERT_MAXN"] = "3000" if tier == "quick" else "60000"      # size limit for the run-time certificate (C08)
     if args.replay:
         cases = [l.strip() for l in open(args.replay) if l.strip() and not l.startswith("#") and l.split()[0] in spec["kinds"]]
         stats = {"replay": args.replay}
@@ -234,6 +235,26 @@ def check(pid, tier, seed, args, t0):
         fails = []
         for j in spec["judges"]:
             fails += [(cid, what, j) for cid, what in jfails.get(j, [])]
+        other = ["%s on %s: %s" % (j, cid, what[:160]) for j in sorted(jfails) if j not in spec["judges"] and not j.startswith("C08c") and j != "C08struct"
+                 for cid, what in jfails[j][:2]]
+        if other:
+            notes.append("judges of OTHER properties failed on these cases (decided by those properties' own checks): " + " | ".join(other[:6]))
+        if spec.get("certq"):
+            # queries named by a failed certificate (model side): run them through the implementation and the ordinary judge
+            follow = []
+            for cid, what in jfails.get(spec["certq"], []):
+                line = by_id.get(cid)
+                if line is None: continue
+                secs = line.split(" | ")
+                if len(secs) != 3: continue
+                hd = secs[0].split(" "); hd[1] = hd[1] + "_cq"
+                follow.append(" | ".join([" ".join(hd), secs[1], what]))
+            if follow:
+                i4, m4, jf4, js4, cr4 = R.run_component(comp["driver_mode"], follow, work, "certq", exelist, driver, env)
+                for l in follow: by_id[case_id(l)] = l
+                for j in spec["judges"]:
+                    fails += [(cid, what, j) for cid, what in jf4.get(j, [])]
+                notes.append("certificate follow-up: %d cases re-run on the queries named by the failed certificate" % len(follow))
         for exe, rc, out, last in crashed:
             # the crashing case is the last one the executable started
             notes.append("harness %s exited with %s on case %s: %s" % (exe, rc, last, out[-300:]))
